@@ -835,7 +835,9 @@ fn obj_json(t: &str, rng: &mut Rng) -> Value {
     match t {
         "compact-tour" => json!({"type": t, "job_radius": rng.range_usize(1, 3)}),
         "hierarchical-areas" => json!({"type": t, "levels": rng.range_usize(1, 3)}),
-        "minimize-unassigned" if rng.chance(0.3) => json!({"type": t, "breaks": 2.0}),
+        // (weights that are not exactly representable: the fitness is then a float sum whose value depends on the order
+        // of summation, which has to be the same every time one solution is asked)
+        "minimize-unassigned" if rng.chance(0.45) => json!({"type": t, "breaks": *rng.pick(&[2.0f64, 0.1, 0.7, 0.3])}),
         "maximize-value" if rng.chance(0.3) => json!({"type": t, "breaks": 50.0}),
         _ => json!({"type": t}),
     }
@@ -1375,16 +1377,29 @@ fn check_goal(run: &Run, info: &CaseInfo, class: &str, goal_name: &str, goal: &G
     };
     let res = run.guard(|| {
         let fitness: Vec<Vec<f64>> = pool.iter().map(|s| goal.fitness(&s.ctx).collect()).collect();
+        // the fitness of one unchanged solution is a value: asked again it is the same number, bit for bit
+        let again: Vec<Vec<f64>> = pool.iter().map(|s| goal.fitness(&s.ctx).collect()).collect();
+        let unstable = (0..n).find(|i| fitness[*i].iter().map(|x| x.to_bits()).ne(again[*i].iter().map(|x| x.to_bits())));
         let mut m = vec![vec![0i8; n]; n];
         for i in 0..n {
             for j in 0..n {
                 m[i][j] = ord_i8(goal.total_order(&pool[i].ctx, &pool[j].ctx));
             }
         }
-        (fitness, m)
+        (fitness, m, unstable.map(|i| (i, again[i].clone())))
     });
     let (fitness, m) = match res {
-        Ok(v) => v,
+        Ok((fitness, m, unstable)) => {
+            if let Some((i, again)) = unstable {
+                run.eval();
+                run.violation(
+                    &format!("C09|goal|{class}|fitness-not-repeatable"),
+                    &format!("{goal_name}: fitness of one unchanged solution ({}) is {:?} and, asked again, {:?}", pool[i].origin, fitness[i], again),
+                    art(&[("a", i)], &fitness, json!({"again": bits_json(&again)})),
+                );
+            }
+            (fitness, m)
+        }
         Err(p) => {
             run.eval();
             run.violation(
@@ -1707,7 +1722,58 @@ fn synthetic_check(run: &Run, problem: &Arc<Problem>, env: &Arc<Environment>, la
     }
 }
 
+/// A minimize-unassigned objective with a job estimator whose weights are not exactly representable (the pragmatic
+/// `breaks` weight is such an estimator) over solutions with many unassigned jobs: the fitness is a float sum, every law
+/// has to hold for it as for any other objective.
+fn weighted_unassigned_goals(run: &Run) {
+    use vrp_core::construction::features::MinimizeUnassignedBuilder;
+    use vrp_core::models::problem::JobIdDimension;
+    let env = Arc::new(Environment::new(Arc::new(DefaultRandom::default()), None, Default::default(), Arc::new(|_: &str| {}), false));
+    for n in [5usize, 12, 40] {
+        let mut text = String::from("WEIGHTED\n\nVEHICLE\nNUMBER     CAPACITY\n  3         50\n\nCUSTOMER\nCUST NO.  XCOORD.   YCOORD.    DEMAND   READY TIME  DUE DATE   SERVICE   TIME\n\n    0      0         0          0          0       1000          0\n");
+        for i in 1..=n {
+            text.push_str(&format!("    {i}      {}         {}          1          0       1000          1\n", i % 7, i % 5));
+        }
+        let Some(problem) = text.read_solomon(false).ok().map(Arc::new) else {
+            run.inconclusive("cannot build the carrier problem for weighted unassigned goals");
+            return;
+        };
+        let weights = [1.0, 0.1, 0.7, 0.3];
+        let built = MinimizeUnassignedBuilder::new("min-unassigned-weighted")
+            .set_job_estimator(move |_, job| {
+                let id = job.dimens().get_job_id().cloned().unwrap_or_default();
+                weights[id.bytes().map(|b| b as usize).sum::<usize>() % weights.len()]
+            })
+            .build()
+            .ok()
+            .and_then(|feature| GoalContextBuilder::with_features(&[feature]).ok()?.build().ok());
+        let Some(goal) = built else {
+            run.inconclusive("cannot build a goal with a weighted unassigned estimator");
+            return;
+        };
+        // pool: nothing assigned (all jobs unassigned), and the same with the first k jobs taken out of every list
+        let mut pool = Vec::new();
+        for k in [0usize, 1, 2, n / 2] {
+            let mut ctx = InsertionContext::new(problem.clone(), env.clone());
+            let drop: Vec<_> = ctx.solution.required.iter().take(k).cloned().collect();
+            ctx.solution.required.retain(|j| !drop.contains(j));
+            for j in drop.iter() {
+                ctx.solution.unassigned.remove(j);
+            }
+            let twin = ctx.deep_copy();
+            pool.push(Sol { ctx, origin: format!("{} of {n} jobs unassigned", n - k), twin_of: None });
+            pool.push(Sol { ctx: twin, origin: format!("deep copy: {} of {n} jobs unassigned", n - k), twin_of: Some((pool.len() - 1, "deep-copy")) });
+        }
+        let info = CaseInfo { case_seed: n as u64, kind: "weighted-unassigned", doc: "", spec_label: "weighted-unassigned", objectives: json!({"jobs": n, "weights": weights}) };
+        for _ in 0..5 {
+            check_goal(run, &info, "weighted-unassigned", "min-unassigned with weights 1/0.1/0.7/0.3", &goal, true, None, &pool);
+        }
+        run.observe("weighted_unassigned_goals", &format!("{n} jobs"));
+    }
+}
+
 fn synthetic_goals(run: &Run) {
+    weighted_unassigned_goals(run);
     let env = Arc::new(Environment::new(Arc::new(DefaultRandom::default()), None, Default::default(), Arc::new(|_: &str| {}), false));
     let Some(problem) = run.guard(synthetic_problem).ok().flatten() else {
         run.inconclusive("cannot build the carrier problem for synthetic goals");
